@@ -14,7 +14,7 @@ from mc.ref import PL, PocketFree
 
 PROPERTY = "C07"
 ASSUMPTIONS = [
-    "grand composite curves are all vectors {0..m}^n with minimum 0 on three temperature spacings (uniform, widening, irregular); "
+    "grand composite curves are all vectors {0..m}^n with minimum 0 on four temperature spacings (uniform, widening, irregular, and one symmetric about 0.0 so that closing temperatures can be exactly zero and rows negative); "
     "exact pocket-free reference in rational arithmetic (mc/ref.py PocketFree)",
     "comparison is between functions: evaluated on the union of the table's rows and the exact breakpoints (rows + closing temperatures)",
 ]
@@ -22,7 +22,7 @@ ASSUMPTIONS = [
 
 def shape_cases(tier, inst):
     dims = [(3, n) for n in range(2, 8)] if tier == "quick" else [(3, n) for n in range(2, 10)] + [(5, 7)]
-    spacings = ["uniform", "irregular"] if tier == "quick" else ["uniform", "widening", "irregular"]
+    spacings = ["uniform", "irregular", "zero-mid"] if tier == "quick" else ["uniform", "widening", "irregular", "zero-mid"]
     for m, n in dims:
         for v in G.shapes(n, m):
             for sp in spacings:
